@@ -239,7 +239,7 @@ func (c *Ctx) condKind(cd Cond, line ssa.Value) string {
 	cd = unwrapNot(cd)
 	switch v := cd.V.(type) {
 	case *ssa.Call:
-		if cal := v.Call.StaticCallee(); cal != nil && cal.Name() == "argslen" {
+		if cal := v.Call.StaticCallee(); cal != nil && cal.Name() == c.nm("argslen") {
 			return "argslen"
 		}
 	case *ssa.BinOp:
@@ -395,7 +395,7 @@ func runC17(c *Ctx) {
 	r.Rule("R5", "the built-in handlers that keep the nick current (internal table: 001, 433, NICK) stay registered for the life of the client: no Remover obtained by registering an internal-table handler is ever invoked, whichever way tracking is switched")
 	c.trackerRules(map[string]string{"R3": "R4"})
 	c.positionalSplitRule("R6")
-	if g, _ := c.Client.Members["intHandlers"].(*ssa.Global); r.Anchor("R5", "intHandlers table and (*Conn).handle", g != nil && c.Func(c.Client, "(*Conn).handle") != nil) {
+	if g, _ := c.Client.Members[c.nm("intHandlers")].(*ssa.Global); r.Anchor("R5", "intHandlers table and (*Conn).handle", g != nil && c.Func(c.Client, "(*Conn).handle") != nil) {
 		nRegs, bad := c.permanentRegistrations(g, c.Func(c.Client, "(*Conn).handle"))
 		r.Floor("R5", "registration calls fed from the internal table", nRegs, 1)
 		why := "no Remover of an internal-table registration reaches a Remove call"
@@ -1048,7 +1048,7 @@ func (c *Ctx) afterPortNormalisation(fn *ssa.Function, at ssa.Instruction) (bool
 	funcInstrs(cn, func(in ssa.Instruction) {
 		if i, ok := in.(*ssa.If); ok {
 			cd := unwrapNot(Cond{V: i.Cond, True: true})
-			if hc, isH := cd.V.(*ssa.Call); isH && hc.Call.StaticCallee() != nil && hc.Call.StaticCallee().Name() == "hasPort" && c.cfgFieldLoad(hc.Call.Args[0], "Server") {
+			if hc, isH := cd.V.(*ssa.Call); isH && hc.Call.StaticCallee() != nil && hc.Call.StaticCallee().Name() == c.nm("hasPort") && c.cfgFieldLoad(hc.Call.Args[0], "Server") {
 				iff = i
 			}
 		}
@@ -1103,12 +1103,8 @@ func (c *Ctx) afterPortNormalisation(fn *ssa.Function, at ssa.Instruction) (bool
 func (c *Ctx) framingRule(rule string) {
 	r, a := c.R, c.A
 	var producer *ssa.Function
-	for _, m := range a.Members {
-		for _, op := range ChanOps(m) {
-			if op.Kind == "send" && c.ChanMayBe(op.Chan, a.In) {
-				producer = m
-			}
-		}
+	if pf := c.producerFrame(); pf != nil {
+		producer = pf.Member
 	}
 	if producer == nil {
 		r.Anchor(rule, "receive goroutine", false)
@@ -1185,7 +1181,7 @@ func runC19(c *Ctx) {
 		supVar := c.FieldVar(c.Client, "Conn", "supportedCaps")
 		for _, cs := range req {
 			ok, why := false, "variadic argument is not <set>.Slice()"
-			if sl, isC := cs.Common().Args[2].(*ssa.Call); isC && sl.Call.StaticCallee() != nil && sl.Call.StaticCallee().Name() == "Slice" {
+			if sl, isC := cs.Common().Args[2].(*ssa.Call); isC && sl.Call.StaticCallee() != nil && c.capRole(sl.Call.StaticCallee()) == "Slice" {
 				set := sl.Call.Args[0]
 				ctor, isCtor := set.(*ssa.Call)
 				switch {
@@ -1195,7 +1191,7 @@ func runC19(c *Ctx) {
 					// Intersect(set, supported) dominates; Size() on the same set guards
 					var inter ssa.Instruction
 					for _, x := range CallSites(neg) {
-						if cal := x.Common().StaticCallee(); cal != nil && cal.Name() == "Intersect" && x.Common().Args[0] == set {
+						if cal := x.Common().StaticCallee(); cal != nil && c.capRole(cal) == "Intersect" && x.Common().Args[0] == set {
 							if fv, _ := loadedField(x.Common().Args[1]); fv == supVar && supVar != nil {
 								inter = x
 							}
@@ -1206,7 +1202,7 @@ func runC19(c *Ctx) {
 						cd = unwrapNot(cd)
 						if bo, isB := cd.V.(*ssa.BinOp); isB {
 							sc, isS := bo.X.(*ssa.Call)
-							measures := isS && sc.Call.StaticCallee() != nil && sc.Call.StaticCallee().Name() == "Size" && sc.Call.Args[0] == set
+							measures := isS && sc.Call.StaticCallee() != nil && c.capRole(sc.Call.StaticCallee()) == "Size" && sc.Call.Args[0] == set
 							if isS && !measures {
 								// len(<the requested slice>) is the same measure
 								if b, isB := sc.Call.Value.(*ssa.Builtin); isB && b.Name() == "len" && sc.Call.Args[0] == ssa.Value(sl) {
@@ -1242,7 +1238,7 @@ func runC19(c *Ctx) {
 						if cal == nil || x.Common().IsInvoke() || len(x.Common().Args) == 0 || x.Common().Args[0] != set {
 							continue
 						}
-						switch cal.Name() {
+						switch c.capRole(cal) {
 						case "Intersect", "Size", "Slice", "Has":
 						default:
 							extra = cal.Name() + " at " + c.InstrPos(x)
@@ -1260,7 +1256,7 @@ func runC19(c *Ctx) {
 						// supported set filled from the handler's argument before the intersection
 						addOK := false
 						for _, x := range CallSites(neg) {
-							if cal := x.Common().StaticCallee(); cal != nil && cal.Name() == "Add" {
+							if cal := x.Common().StaticCallee(); cal != nil && c.capRole(cal) == "Add" {
 								if fv, _ := loadedField(x.Common().Args[0]); fv == supVar && instrDominates(x, inter) {
 									if _, isP := x.Common().Args[1].(*ssa.Parameter); isP {
 										addOK = true
@@ -1455,10 +1451,10 @@ func runC19(c *Ctx) {
 	for _, fn := range c.clientFuncs() {
 		for _, cs := range CallSites(fn) {
 			cal := cs.Common().StaticCallee()
-			if cal == nil || recvNamed(cal) == nil || recvNamed(cal).Obj().Name() != "capSet" {
+			if cal == nil || recvNamed(cal) == nil || recvNamed(cal).Obj().Name() != c.nm("capSet") {
 				continue
 			}
-			if cal.Name() != "Add" && cal.Name() != "Intersect" {
+			if c.capRole(cal) != "Add" && c.capRole(cal) != "Intersect" {
 				continue
 			}
 			if fv, _ := loadedField(cs.Common().Args[0]); fv != curVar || curVar == nil {
@@ -1537,7 +1533,7 @@ func (c *Ctx) wantedSetRule(ctor *ssa.Function) {
 	}
 	for _, cs := range CallSites(ctor) {
 		cal := cs.Common().StaticCallee()
-		if cal == nil || cal.Name() != "Add" || cs.Common().Args[0] != set {
+		if cal == nil || c.capRole(cal) != "Add" || cs.Common().Args[0] != set {
 			continue
 		}
 		contribute(cs.Common().Args[1], CondsAt(cs.Block()), 0)
@@ -1877,7 +1873,7 @@ func (c *Ctx) capDispatchRule(rule string) {
 			}
 			switch v := cd.V.(type) {
 			case *ssa.Call:
-				if f := v.Call.StaticCallee(); f != nil && f.Name() == "argslen" {
+				if f := v.Call.StaticCallee(); f != nil && f.Name() == c.nm("argslen") {
 					good = true
 				}
 			case *ssa.BinOp:
@@ -1966,7 +1962,7 @@ func (c *Ctx) addFacts(f portFacts, cds []Cond, env *penv) portFacts {
 			f.sslKnown, f.ssl = true, cd.True
 			continue
 		}
-		if hc, ok := v.(*ssa.Call); ok && hc.Call.StaticCallee() != nil && hc.Call.StaticCallee().Name() == "hasPort" && len(hc.Call.Args) == 1 {
+		if hc, ok := v.(*ssa.Call); ok && hc.Call.StaticCallee() != nil && hc.Call.StaticCallee().Name() == c.nm("hasPort") && len(hc.Call.Args) == 1 {
 			arg, _ := e2.resolve(hc.Call.Args[0])
 			if c.cfgFieldLoad(arg, "Server") {
 				f.hpKnown, f.hp = true, cd.True
@@ -2232,4 +2228,31 @@ func (c *Ctx) ownRenameRule(rule string) {
 		}
 	}
 	r.Floor(rule, "ReNick calls in built-in handlers", n, 3)
+}
+
+// capRole names a method of the capability-set type by what its signature
+// says it is (the type and its methods are unexported in spirit and may be
+// renamed): Add(...string), Has(string) bool, Intersect(*set), Slice()
+// []string, Size() int. "" for anything else.
+func (c *Ctx) capRole(fn *ssa.Function) string {
+	if fn == nil {
+		return ""
+	}
+	rn := recvNamed(fn)
+	if rn == nil || rn != c.Named(c.Client, "capSet") {
+		return ""
+	}
+	switch sig := sigString(fn); {
+	case sig == "([]string...)()":
+		return "Add"
+	case sig == "(string)(bool)":
+		return "Has"
+	case sig == "()([]string)":
+		return "Slice"
+	case sig == "()(int)":
+		return "Size"
+	case fn.Signature.Params().Len() == 1 && fn.Signature.Results().Len() == 0 && namedOf(fn.Signature.Params().At(0).Type()) == rn:
+		return "Intersect"
+	}
+	return ""
 }
